@@ -705,6 +705,12 @@ def _body(check):
                          "orientation decoded from mesh2d + calc_bc")
     check.assume("exact arithmetic (agreement to round-off not decided); nx, ny >= 2")
     check.guarded("RANK-COVARIANT", "euler2d", lambda: rank_covariant(check))
+    # "data that vary only along x (or y)": fields are sampled at the cell centres -- nx*ny of them, row by row (same
+    # obligation as C20 MESH2D-CENTRE)
+    from . import c20
+    n0 = len(check.obs)
+    check.guarded("MESH2D-CENTRE", "mesh2d", lambda: c20.mesh_2d(check, proj))
+    check.obs[n0:] = [o for o in check.obs[n0:] if o.rule == "MESH2D-CENTRE" or (o.status != "ok" and "float-arange" in (o.key or ""))]
     check.guarded("STN-TRANSPOSE", "modeldisc.fvm2dcart", lambda: transpose(check))
     check.guarded("TELESCOPE-2D", "modeldisc.fvm2dcart.calc_res", lambda: telescope_2d(check))
     check.guarded("DIR-TABLE", "modeldisc.fvm2dcart.calc_flux", lambda: dir_table(check))
